@@ -85,6 +85,7 @@ PD_B = [[None, 3, 0.1, None], ["schulz", 2, 0.2, 2.0], ["cut1"]]
 PD_O = [[None, 3, 10.0, None], ["uniform", 2, 5.0, 3.0]]
 CUTOFFS = [0.0, 0.05]           # default 1e-5 is the only value direct_model.Iq can use
 INTERFACES = ["call_kernel", "DirectModel", "Iq", "sasview", "bumps"]
+SV_ENTRIES = ["sasview.calculate_Iq", "sasview.runXY", "sasview.run"]      # besides evalDistribution ("sasview")
 
 _STUBS = os.path.normpath(os.path.join(os.path.dirname(os.path.abspath(__file__)), "..", "stubs"))
 
@@ -260,7 +261,13 @@ def cases(ctx):
         for dk in ("plain", "dx0", "dx", "dxmix", "slit", "2d", "2dres"):
             for n in (4, 50):
                 for pd in (False, True):
-                    out.append({"kind": "sel", "model": m, "data": dk, "n": n, "pd": pd})
+                    # every representation on the four-point patterns without dispersity (the mask does not care about
+                    # the model settings); the other blocks rotate through the representations
+                    reps = MASK_REPS if (n == 4 and not pd) else [MASK_REPS[(len(out) + 1) % len(MASK_REPS)]]
+                    for mr in reps:
+                        if mr == "none" and dk.startswith("2d"):
+                            continue       # 2-D data must carry a mask array (Data2D always builds one)
+                        out.append({"kind": "sel", "model": m, "data": dk, "n": n, "pd": pd, "maskrep": mr})
     for m in eq_models(ctx):
         out.append({"kind": "unk", "model": m})
     for m, qk in (REUSE_QUICK if ctx.quick else REUSE_THOROUGH):
@@ -268,6 +275,11 @@ def cases(ctx):
             out.append({"kind": "reuse", "model": m, "q": qk, "first": first})
     return out
 
+
+# how the mask is stored in the data object.  "none": the attribute is None whenever the pattern needs no mask
+# (1-D data only; the unchanged tree reads `mask == 0`, so every array dtype is legal).
+MASK_REPS = ["bool", "int8", "int64", "float", "none"]
+_MASK_DTYPE = {"bool": bool, "int8": "b", "int64": np.int64, "float": float}
 
 # explicit zeros: [type, npts, width, nsigmas] with one or more members given as 0 / 0.0 (int and float spellings),
 # alone and next to a non-zero partner
@@ -574,6 +586,47 @@ def _evaluate(pl, st, mods, interfaces=INTERFACES):
                 return obj.evalDistribution([q[0].copy(), q[1].copy()])
             return obj.evalDistribution(q[0].copy())
         attempt("sasview", sv)
+        # the other public evaluation entry points, on one further object configured the same way
+        import math
+        two = st["q"] == "2d"
+
+        shared = {}
+
+        def the_obj():
+            if "obj" not in shared:
+                shared["obj"] = sasview_object(pl, st, mods)
+            return shared["obj"]
+
+        def calc_iq():
+            obj = the_obj()
+            res, _ = obj.calculate_Iq(q[0].copy(), q[1].copy()) if two else obj.calculate_Iq(q[0].copy())
+            return res
+
+        def run_xy():
+            obj = the_obj()
+            if two:
+                return [obj.runXY([float(a), float(b)]) for a, b in zip(q[0], q[1])]
+            return [obj.runXY(float(a)) for a in q[0]]
+
+        def run_():
+            obj = the_obj()
+            if two:
+                return [obj.run([math.hypot(a, b), math.atan2(b, a)]) for a, b in zip(q[0], q[1])]
+            return [obj.run(float(a)) for a in q[0]]
+        attempt("sasview.calculate_Iq", calc_iq)
+        attempt("sasview.runXY", run_xy)
+        attempt("sasview.run", run_)
+        if two:
+            # run([q, phi]) is documented as the point (q cos phi, q sin phi): the direct calculator at exactly those
+            try:
+                rr = [math.hypot(a, b) for a, b in zip(q[0], q[1])]
+                ph = [math.atan2(b, a) for a, b in zip(q[0], q[1])]
+                px = np.array([r_ * math.cos(p_) for r_, p_ in zip(rr, ph)])
+                py = np.array([r_ * math.sin(p_) for r_, p_ in zip(rr, ph)])
+                out["reference:sasview.run"] = np.array(call_kernel(model.make_kernel([px, py]), dict(pars), cutoff=cutoff),
+                                                        float)
+            except Exception:  # noqa
+                pass
     return out
 
 
@@ -647,6 +700,7 @@ def _run_eq(case, ctx):
     nt = bool(active or st["mult"] or "magnetic" in br or st["set"])
     fk = {"model": pl.name, "q": st["q"]}
     reference = res.pop("reference", None)
+    ref_run = res.pop("reference:sasview.run", None)
     ref = res.get("call_kernel")
     br.append("q-order-" + st["order"])
     errors = {k: v for k, v in res.items() if isinstance(v, Exception)}
@@ -662,19 +716,26 @@ def _run_eq(case, ctx):
         br.append("non-finite-reference")
     if reference is not None:
         ref = reference
-    for k in (INTERFACES if reference is not None else INTERFACES[1:]):
+    for k in (INTERFACES if reference is not None else INTERFACES[1:]) + SV_ENTRIES:
         if k not in res:
             continue
-        if k == "sasview" and orient_1d:
+        if k.startswith("sasview."):
+            br.append("entry-" + k + (":polar" if (k == "sasview.run" and st["q"] == "2d") else ":" + st["q"]))
+        if k == "sasview.run" and ref_run is not None:
+            ref_k = ref_run
+        else:
+            ref_k = ref
+        if k.startswith("sasview") and orient_1d:
             # stated exception: the SasView object carries the angle mesh through the 1-D kernel
             if st["cutoff"] != 0.0:
                 br.append("exception-skipped(cutoff>0)")
                 continue
-            ok = _near(res[k], ref)
+            ok = _near(res[k], ref_k)
             br.append("exception-tolerance")
         else:
-            ok = _same(res[k], ref)
+            ok = _same(res[k], ref_k)
         if not ok:
+            ref = ref_k
             return r.fail("%s\n  q stored %s: %s\n  expected (call_kernel%s)=%s\n  %-11s=%s\n  (all: %s)"
                           % (desc, st["order"], [list(v[_perm(len(v), st["order"])]) for v in _qvec(st["q"])],
                              "" if reference is None else " on the ascending vector, re-indexed", ref, k, res[k],
@@ -738,7 +799,7 @@ def _mechanisms(keep, two_d):
         yield "q=0", {gone[0]: "zero"}
 
 
-def _build_data(mods, dk, n, keep, mech, f):
+def _build_data(mods, dk, n, keep, mech, f, maskrep="bool"):
     """raw arrays + the data object; returns (data, raw) where raw holds everything the index oracle needs"""
     bumps_model, direct_model, sasview_model, weights, sdata, resolution, resolution2d = mods
     two_d = dk.startswith("2d")
@@ -765,14 +826,17 @@ def _build_data(mods, dk, n, keep, mech, f):
             dqx, dqy = 0.05 * qr + 1e-4, 0.03 * qr + 1e-4
         data = sdata.Data2D(x=qx.copy(), y=qy.copy(), z=y.copy(), dx=None if dqx is None else dqx.copy(),
                             dy=None if dqy is None else dqy.copy(), dz=dy.copy())
-        data.mask = mask.copy()
+        data.mask = mask.astype(_MASK_DTYPE[maskrep])
         q = qr
     else:
         q = np.geomspace(0.01, 0.3, n) * f
         dx = {"plain": None, "dx0": np.zeros(n), "dx": 0.05 * q, "slit": None,
               "dxmix": np.where(np.array(keep, bool), 0.0, 0.05 * q)}[dk]     # width only on the removed points
         data = sdata.Data1D(x=q.copy(), y=y.copy(), dx=None if dx is None else dx.copy(), dy=dy.copy())
-        data.mask = mask.astype("b") if (n % 2 == 0) else mask.copy()
+        if maskrep == "none":
+            data.mask = None if not mask.any() else mask.copy()
+        else:
+            data.mask = mask.astype(_MASK_DTYPE[maskrep])
         data.dxl = data.dxw = None
         if dk == "slit":
             data.dxl = np.full(n, 0.02)
@@ -849,16 +913,20 @@ def _run_sel(case, ctx):
     fk0 = {"model": pl.name, "data": dk}
     for keep in _patterns(n):
         for label, mech in _mechanisms(keep, two_d):
-            data, raw = _build_data(mods, dk, n, keep, mech, f)
+            data, raw = _build_data(mods, dk, n, keep, mech, f, case.get("maskrep", "bool"))
             # index recomputed from the raw arrays
             idx = (~raw["mask"]) & (raw["q"] >= raw["qmin"]) & (raw["q"] <= raw["qmax"]) & ~np.isnan(raw["y"])
             pattern = "".join("1" if k else "0" for k in keep) if n <= 8 else "%d/%d kept" % (sum(keep), n)
             if list(idx) != list(keep):
                 raise HarnessError("mechanism %s does not realise pattern %s (%s)" % (label, pattern, idx))
-            desc = ("%s data=%s n=%d keep=%s via %s (mask=%s, y=%s, qmin=%r, qmax=%r, q=%s) pars=%s"
-                    % (pl.name, dk, n, pattern, label, raw["mask"].astype(int)[:8], raw["y"][:8], raw["qmin"], raw["qmax"],
+            stored = "None" if data.mask is None else "%s array %s" % (data.mask.dtype, list(data.mask[:8]))
+            desc = ("%s data=%s n=%d keep=%s via %s (data.mask stored as %s, y=%s, qmin=%r, qmax=%r, q=%s) pars=%s"
+                    % (pl.name, dk, n, pattern, label, stored, raw["y"][:8], raw["qmin"], raw["qmax"],
                        raw["q"][:8], {k: v for k, v in pars.items() if "_pd" in k}))
-            br = ["data-" + dk, "mechanism-" + label]
+            br = ["data-" + dk, "mechanism-" + label,
+                  "mask-stored-as-%s:%s" % ("None" if data.mask is None else data.mask.dtype.name, "2d" if two_d else "1d")]
+            if raw["mask"].any():
+                br.append("mask-in-effect-as-%s:%s" % (data.mask.dtype.name, "2d" if two_d else "1d"))
             nt = not all(keep)
             if nt:
                 br.append("pattern-removes-points")
@@ -1409,6 +1477,9 @@ def finish(ctx, report):
     report.require("scale-background-defaulted", 20, "scale/background left to the default")
     report.require("magnetic", 5, "magnetic 2-D")
     report.require("Iq-compared", 50, "direct_model.Iq/Iqxy in the comparison")
+    for e in ("sasview.calculate_Iq:1d", "sasview.calculate_Iq:2d", "sasview.runXY:1d", "sasview.runXY:2d", "sasview.run:1d",
+              "sasview.run:polar"):
+        report.require("entry-" + e, 50, "SasView entry point " + e)
     for z in ("npts-beside-width", "width-beside-npts", "nsigmas-beside-npts", "npts-and-width", "value", "scale/background",
               "magnetic"):
         report.require("explicit-zero:" + z, 20, "setting given explicitly as zero: " + z)
@@ -1420,6 +1491,11 @@ def finish(ctx, report):
     report.require("mechanism-qlim-on-neighbour", 10, "q limit exactly on a datum")
     report.require("mechanism-q=0", 4, "q = 0 in 2-D data")
     report.require("unmasked-indexed", 100, "unmasked evaluation indexed by the selection")
+    for dim in ("1d", "2d"):
+        for dt in ("bool", "int8", "int64", "float64"):
+            report.require("mask-stored-as-%s:%s" % (dt, dim), 20, "mask stored as %s, %s data" % (dt, dim))
+            report.require("mask-in-effect-as-%s:%s" % (dt, dim), 20, "points masked through a %s mask, %s data" % (dt, dim))
+    report.require("mask-stored-as-None:1d", 10, "1-D data without a mask array")
     for dk in ("plain", "dx0", "dx", "dxmix", "slit", "2d", "2dres"):
         report.require("data-" + dk, 20, "data kind " + dk)
         report.require("Iq-on-data-" + dk, 2, "direct_model.Iq/Iqxy on data kind " + dk)
